@@ -41,7 +41,7 @@ func (w *World) blockTxBytes(b *BlockSpec) [][]byte {
 	cctx := w.Ref.App.BaseApp.NewContext(true, w.Hdr)
 	var out [][]byte
 	for i := range b.Txs {
-		if b.Txs[i].CheckOnly {
+		if b.Txs[i].CheckOnly || b.Txs[i].SimOnly {
 			continue
 		}
 		if bz := w.signFor(&b.Txs[i], cctx); len(bz) > 0 {
